@@ -825,7 +825,8 @@ pub struct Parse {
     #[allow(dead_code)]
     len: i32,
     pub name: String,
-    query: String,
+    /// The query text as the client sent it: it need not be UTF-8 (client_encoding).
+    query: Vec<u8>,
     num_params: i16,
     param_types: Vec<i32>,
 }
@@ -838,7 +839,11 @@ impl TryFrom<&BytesMut> for Parse {
         let code = cursor.get_u8() as char;
         let len = cursor.get_i32();
         let name = cursor.read_string()?;
-        let query = cursor.read_string()?;
+        let mut query = vec![];
+        match cursor.read_until(b'\0', &mut query) {
+            Ok(_) => query.truncate(query.len().saturating_sub(1)),
+            Err(err) => return Err(Error::ParseBytesError(err.to_string())),
+        };
         let num_params = cursor.get_i16();
         let mut param_types = Vec::new();
 
